@@ -1,259 +1,11 @@
-(* SourceFmt.v — text_runs.gather_Pr / _gather_sub_vals / get_pStyle and namespace.qn AS TRANSLATED
-   FROM THE SOURCE TEXT (gen/Source.v) are equal to the model's gather_Pr / get_pStyle (model/Fmt.v)
-   and attr_w's name resolution (model/Xml.v), which the C05 (paragraph style), C07 (run / paragraph
-   formatting) and C18 theorems are about.
-
-   An lxml element is read as an object with the fields the translated code reads: `tag` (Clark
-   notation; a comment's or processing instruction's tag is not a str), `localname`
-   (namespace.get_localname), `nsmap` (the bindings of w and r), `attrib` (Clark names) and its children
-   (iteration; element.iterfind(q) = the children whose tag is q).
-
-   Clark notation is injective on names without braces: a parsed local name is an NCName and contains
-   neither brace (`braceless`), which is what lets `iterfind("{uri}localPr")` be the model's
-   find_child (uri, local ++ "Pr"). *)
+(* SourceFmt.v — text_runs.gather_Pr / _gather_sub_vals / get_pStyle AS TRANSLATED FROM THE SOURCE TEXT
+   (gen/Source.v) are equal to the model's gather_Pr / get_pStyle (model/Fmt.v), which the C05 (paragraph
+   style) and C07 (run / paragraph formatting) theorems are about.  How elements are read, qn and the
+   Clark-name lemmas are in SourceElem.v. *)
 From Coq Require Import List NArith ZArith Bool Arith Lia.
-From D2P Require Import Str Err Xml TableTypes Tables Fmt PyVal Source SourceBase.
+From D2P Require Import Str Err Xml TableTypes Tables Fmt PyVal Source SourceBase SourceElem.
 Import ListNotations.
 
-Definition f_Element : str := [69;108;101;109;101;110;116]%N.
-Definition f_tag : str := [116;97;103]%N.
-Definition f_localname : str := [108;111;99;97;108;110;97;109;101]%N.
-Definition f_nsmap : str := [110;115;109;97;112]%N.
-Definition f_attrib : str := [97;116;116;114;105;98]%N.
-
-Definition fclark (a : aname) : str :=
-  match fst a with Some u => (123 :: u ++ 125 :: snd a)%N | None => snd a end.
-
-Definition enc_nsmap (e : einfo) : pv :=
-  VDict None ((match e_wuri e with Some u => [(VStr [119]%N, VStr u)] | None => [] end)
-              ++ (match e_ruri e with Some u => [(VStr [114]%N, VStr u)] | None => [] end)).
-
-Fixpoint enc_fel (t : anode) : pv :=
-  match t with
-  | AX _ => VObj f_Element [(f_tag, VNone); (f_localname, VNone); (f_nsmap, VDict None []);
-                            (f_attrib, VDict None []); (k_iter, VList [])]
-  | AE e ks =>
-      VObj f_Element
-        [(f_tag, VStr (fclark (e_uri e, e_local e)));
-         (f_localname, VStr (e_local e));
-         (f_nsmap, enc_nsmap e);
-         (f_attrib, VDict None (map (fun kv => (VStr (fclark (fst kv)), VStr (snd kv))) (e_attrs e)));
-         (k_iter, VList (map enc_fel ks))]
-  end.
-
-(* no brace in a name (XML NCName) *)
-Definition braceless (s : str) : Prop := ~ In 123%N s /\ ~ In 125%N s.
-Definition kid_names_ok (ks : list anode) : Prop :=
-  forall e ks', In (AE e ks') ks -> braceless (e_local e).
-(* attribute names: local parts braceless, so that a Clark name determines the attribute *)
-Definition attr_names_ok (e : einfo) : Prop :=
-  forall k x, In (k, x) (e_attrs e) -> braceless (snd k).
-
-Definition enc_opt (o : option str) : pv := match o with Some s => VStr s | None => VNone end.
-Definition enc_prd (d : list (str * option str)) : pv :=
-  VDict None (map (fun kv => (VStr (fst kv), enc_opt (snd kv))) d).
-Definition lift_prd (r : res (list (str * option str))) : res pv :=
-  match r with Ok d => Ok (enc_prd d) | Err e => Err e end.
-
-
-(* ---------- helper lemmas ---------- *)
-Lemma sf_str_eqb_eq : forall a b, str_eqb a b = true <-> a = b.
-Proof.
-  induction a as [|x a IH]; destruct b as [|y b]; cbn [str_eqb]; split; intro H;
-    try reflexivity; try discriminate.
-  - apply andb_true_iff in H. destruct H as [H1 H2]. apply N.eqb_eq in H1.
-    apply IH in H2. subst. reflexivity.
-  - inversion H; subst. rewrite N.eqb_refl. apply IH. reflexivity.
-Qed.
-Lemma sf_str_eqb_refl : forall a, str_eqb a a = true.
-Proof. intro a. apply sf_str_eqb_eq. reflexivity. Qed.
-
-Lemma sf_aname_eqb_eq : forall a b, aname_eqb a b = true <-> a = b.
-Proof.
-  intros [u l] [u' l']. unfold aname_eqb. cbn [fst snd]. split; intro H.
-  - apply andb_true_iff in H. destruct H as [H1 H2]. apply sf_str_eqb_eq in H2. subst.
-    destruct u as [u|], u' as [u'|]; cbn [ostr_eqb] in H1; try discriminate; [|reflexivity].
-    apply sf_str_eqb_eq in H1. subst. reflexivity.
-  - inversion H; subst. rewrite sf_str_eqb_refl.
-    destruct u' as [u'|]; cbn [ostr_eqb]; [rewrite sf_str_eqb_refl|]; reflexivity.
-Qed.
-
-Lemma sf_pv_eqb_str : forall a b, pv_eqb (VStr a) (VStr b) = str_eqb a b.
-Proof. reflexivity. Qed.
-
-(* the fields of an encoded element *)
-Lemma sf_attr_tag : forall e ks,
-  py_attr (enc_fel (AE e ks)) [116;97;103]%N = Ok (VStr (fclark (e_uri e, e_local e))).
-Proof. reflexivity. Qed.
-Lemma sf_attr_tag_AX : forall tl, py_attr (enc_fel (AX tl)) [116;97;103]%N = Ok VNone.
-Proof. reflexivity. Qed.
-Lemma sf_attr_localname : forall e ks,
-  py_attr (enc_fel (AE e ks)) [108;111;99;97;108;110;97;109;101]%N = Ok (VStr (e_local e)).
-Proof. reflexivity. Qed.
-Lemma sf_attr_nsmap : forall e ks,
-  py_attr (enc_fel (AE e ks)) [110;115;109;97;112]%N = Ok (enc_nsmap e).
-Proof. reflexivity. Qed.
-Lemma sf_attr_attrib : forall e ks,
-  py_attr (enc_fel (AE e ks)) [97;116;116;114;105;98]%N
-  = Ok (VDict None (map (fun kv => (VStr (fclark (fst kv)), VStr (snd kv))) (e_attrs e))).
-Proof. reflexivity. Qed.
-Lemma sf_iter_el : forall e ks, py_iter (enc_fel (AE e ks)) = Ok (map enc_fel ks).
-Proof. reflexivity. Qed.
-
-(* "w:NAME".split(":") *)
-Lemma sf_split_no : forall c s, ~ In c s -> split_chr c s = [s].
-Proof.
-  induction s as [|x s IH]; intro H; cbn [split_chr]; [reflexivity|].
-  destruct (N.eqb x c) eqn:E.
-  - apply N.eqb_eq in E. exfalso. apply H. left. exact E.
-  - rewrite IH; [reflexivity|]. intro Hi. apply H. right. exact Hi.
-Qed.
-Lemma sf_split_w : forall name, ~ In 58%N name ->
-  split_chr 58%N ([119; 58]%N ++ name) = [[119]%N; name].
-Proof.
-  intros name H. cbn [app split_chr].
-  change (N.eqb 119 58) with false. change (N.eqb 58 58) with true. cbv iota.
-  rewrite (sf_split_no _ _ H). reflexivity.
-Qed.
-
-(* qn(elem, "w:NAME") = "{" + nsmap["w"] + "}NAME"; KeyError when w is unbound *)
-Theorem src_qn_w : forall e ks name, ~ In 58%N name ->
-  S_qn (enc_fel (AE e ks)) (VStr ([119; 58]%N ++ name))
-  = match e_wuri e with
-    | Some u => Ok (VStr (fclark (Some u, name)))
-    | None => Err KeyError
-    end.
-Proof.
-  intros e ks name Hn. unfold S_qn, py_split_on. rewrite (sf_split_w name Hn).
-  cbn [binde map py_unpack2 py_iter bind]. rewrite sf_attr_nsmap. cbn [binde].
-  unfold enc_nsmap. destruct (e_wuri e) as [u|].
-  - cbn [app py_index assoc]. rewrite sf_pv_eqb_str, sf_str_eqb_refl.
-    cbn [binde S_str_1 py_str py_add fn_result]. unfold fclark. cbn [fst snd].
-    rewrite <- app_assoc. reflexivity.
-  - destruct (e_ruri e) as [r|]; reflexivity.
-Qed.
-
-Lemma sf_qn_w_val : forall e ks,
-  S_qn (enc_fel (AE e ks)) (VStr [119;58;118;97;108]%N)
-  = match e_wuri e with
-    | Some u => Ok (VStr (fclark (Some u, s_val)))
-    | None => Err KeyError
-    end.
-Proof.
-  intros e ks. apply (src_qn_w e ks s_val).
-  unfold s_val. cbn [In]. intros [H|[H|[H|[]]]]; discriminate H.
-Qed.
-
-(* ---------- Clark notation is injective on braceless local names ---------- *)
-Lemma sf_app125_inj : forall u u' l l', ~ In 125%N l -> ~ In 125%N l' ->
-  u ++ 125%N :: l = u' ++ 125%N :: l' -> u = u' /\ l = l'.
-Proof.
-  induction u as [|x u IH]; intros [|y u'] l l' Hl Hl' H; cbn [app] in H.
-  - inversion H. split; reflexivity.
-  - inversion H as [[Hy Ht]]. exfalso. apply Hl. rewrite Ht. apply in_or_app. right. left. reflexivity.
-  - inversion H as [[Hy Ht]]. exfalso. apply Hl'. rewrite <- Ht. apply in_or_app. right. left. reflexivity.
-  - inversion H as [[Hy Ht]]. destruct (IH u' l l' Hl Hl' Ht) as [A B]. subst. split; reflexivity.
-Qed.
-
-Lemma sf_fclark_inj : forall a b, braceless (snd a) -> braceless (snd b) ->
-  fclark a = fclark b -> a = b.
-Proof.
-  intros [[u|] l] [[u'|] l'] [Ha1 Ha2] [Hb1 Hb2] H; unfold fclark in H; cbn [fst snd] in *.
-  - inversion H as [H1]. destruct (sf_app125_inj _ _ _ _ Ha2 Hb2 H1). subst. reflexivity.
-  - exfalso. apply Hb1. rewrite <- H. left. reflexivity.
-  - exfalso. apply Ha1. rewrite H. left. reflexivity.
-  - subst. reflexivity.
-Qed.
-
-Lemma sf_fclark_eqb : forall a b, braceless (snd a) -> braceless (snd b) ->
-  str_eqb (fclark a) (fclark b) = aname_eqb a b.
-Proof.
-  intros a b Ha Hb. destruct (aname_eqb a b) eqn:E.
-  - apply sf_aname_eqb_eq in E. subst. apply sf_str_eqb_refl.
-  - destruct (str_eqb (fclark a) (fclark b)) eqn:E2; [|reflexivity].
-    apply sf_str_eqb_eq in E2. apply (sf_fclark_inj a b Ha Hb) in E2. subst.
-    rewrite (proj2 (sf_aname_eqb_eq b b) eq_refl) in E. discriminate.
-Qed.
-
-Lemma sf_fclark_Pr : forall u l, fclark (u, l) ++ s_Pr = fclark (u, l ++ s_Pr).
-Proof.
-  intros [u|] l; unfold fclark; cbn [fst snd]; [|reflexivity].
-  cbn [app]. rewrite <- app_assoc. reflexivity.
-Qed.
-
-Lemma sf_braceless_Pr : forall l, braceless l -> braceless (l ++ s_Pr).
-Proof.
-  intros l [H1 H2]. split; intro H; apply in_app_or in H; destruct H as [H|H];
-    try (apply H1; exact H); try (apply H2; exact H);
-    unfold s_Pr in H; cbn [In] in H; destruct H as [H|[H|[]]]; discriminate H.
-Qed.
-
-(* element.iterfind("{uri}local") = the model's find_children *)
-Definition sf_tagp (q : pv) (k : pv) : bool :=
-  match k with
-  | VObj _ fs => match field_get k_tag_field fs with
-                 | Some t => pv_eqb t q
-                 | None => false
-                 end
-  | _ => false
-  end.
-
-Lemma sf_filter_kids : forall u l ks, braceless l -> kid_names_ok ks ->
-  filter (sf_tagp (VStr (fclark (u, l)))) (map enc_fel ks) = map enc_fel (find_children u l ks).
-Proof.
-  intros u l ks Hl. unfold find_children. induction ks as [|k r IH]; intro Hk; [reflexivity|].
-  cbn [map filter].
-  assert (Hr : kid_names_ok r) by (intros e0 ks0 Hin; apply (Hk e0 ks0); right; exact Hin).
-  destruct k as [e' ks'|tl].
-  - change (sf_tagp (VStr (fclark (u, l))) (enc_fel (AE e' ks')))
-      with (str_eqb (fclark (e_uri e', e_local e')) (fclark (u, l))).
-    rewrite sf_fclark_eqb; [|exact (Hk e' ks' (or_introl eq_refl))|exact Hl].
-    unfold aname_eqb, is_elem_named. cbn [fst snd].
-    destruct (ostr_eqb (e_uri e') u && str_eqb (e_local e') l); cbn [map]; rewrite (IH Hr); reflexivity.
-  - change (sf_tagp (VStr (fclark (u, l))) (enc_fel (AX tl))) with false.
-    cbn [is_elem_named]. exact (IH Hr).
-Qed.
-
-Lemma sf_iterfind : forall e ks u l, braceless l -> kid_names_ok ks ->
-  py_iterfind (enc_fel (AE e ks)) (VStr (fclark (u, l)))
-  = Ok (VList (map enc_fel (find_children u l ks))).
-Proof.
-  intros e ks u l Hl Hk. unfold py_iterfind. rewrite sf_iter_el. cbn [bind].
-  rewrite <- (sf_filter_kids u l ks Hl Hk). reflexivity.
-Qed.
-
-(* attrib.get(Clark name) = the model's alookup *)
-Lemma sf_assoc_attrs : forall a (l : list (aname * str)),
-  braceless (snd a) -> (forall k x, In (k, x) l -> braceless (snd k)) ->
-  assoc (VStr (fclark a)) (map (fun kv => (VStr (fclark (fst kv)), VStr (snd kv))) l)
-  = option_map VStr (alookup a l).
-Proof.
-  intros a l Ha. induction l as [|[k x] r IH]; intro H; cbn [map assoc alookup fst snd]; [reflexivity|].
-  rewrite sf_pv_eqb_str, sf_fclark_eqb; [|exact Ha|exact (H k x (or_introl eq_refl))].
-  destruct (aname_eqb a k); [reflexivity|].
-  apply IH. intros k0 x0 Hin. apply (H k0 x0). right. exact Hin.
-Qed.
-
-(* the dict of sub-values *)
-Lemma sf_assoc_set : forall k v (d : list (str * option str)),
-  assoc_set (VStr k) (enc_opt v) (map (fun kv => (VStr (fst kv), enc_opt (snd kv))) d)
-  = map (fun kv => (VStr (fst kv), enc_opt (snd kv))) (dict_set k v d).
-Proof.
-  intros k v d. induction d as [|[k' v'] r IH]; cbn [map assoc_set dict_set fst snd]; [reflexivity|].
-  rewrite sf_pv_eqb_str. destruct (str_eqb k k') eqn:E.
-  - apply sf_str_eqb_eq in E. subst. reflexivity.
-  - cbn [map fst snd]. rewrite IH. reflexivity.
-Qed.
-Lemma sf_setitem : forall d k v,
-  py_setitem (enc_prd d) (VStr k) (enc_opt v) = Ok (enc_prd (dict_set k v d)).
-Proof. intros d k v. unfold enc_prd. cbn [py_setitem]. rewrite sf_assoc_set. reflexivity. Qed.
-Lemma sf_assoc_prd : forall k (d : list (str * option str)),
-  assoc (VStr k) (map (fun kv => (VStr (fst kv), enc_opt (snd kv))) d)
-  = option_map enc_opt (dict_get k d).
-Proof.
-  intros k d. induction d as [|[k' v'] r IH]; cbn [map assoc dict_get fst snd]; [reflexivity|].
-  rewrite sf_pv_eqb_str. destruct (str_eqb k k'); [reflexivity|exact IH].
-Qed.
 
 (* ---------- the loop of _gather_sub_vals ---------- *)
 Definition sf_body : pv -> pv * pv -> out (pv * pv) :=
@@ -348,12 +100,6 @@ Proof.
     + rewrite Hs. reflexivity.
 Qed.
 
-Lemma sf_find_children_in : forall u l ks k, In k (find_children u l ks) ->
-  In k ks /\ exists pe pks, k = AE pe pks.
-Proof.
-  intros u l ks k H. unfold find_children in H. apply filter_In in H. destruct H as [H1 H2].
-  split; [exact H1|]. destruct k as [pe pks|tl]; [|discriminate H2]. exists pe, pks. reflexivity.
-Qed.
 
 (* gather_Pr(element) (tag=None): the {name: val} of the children of element's <tagPr> child *)
 Theorem src_gather_Pr : forall (ext : pv -> pv -> res pv) e ks,
@@ -395,6 +141,6 @@ Proof.
   destruct (dict_get s_pStyle d) as [[[|c s]|]|]; reflexivity.
 Qed.
 
-Print Assumptions src_qn_w.
 Print Assumptions src_gather_Pr.
 Print Assumptions src_get_pStyle.
+
